@@ -8,6 +8,10 @@ is written to disk, nothing is executed) and the property's rules are re-run on 
 An edit whose anchor text no longer occurs in the current source is reported as 'stale' (the
 mutant list needs maintenance) but is not a failure of the property.
 
+In addition every change of the seeded corpus (/verif/seeded/<pid>/*/patch.diff — written by independent
+sub-agents who saw only the property text, DESIGN.md §9) is applied the same way, in memory, through a small
+unified-diff applier: kind 'break' must give a new finding of the property, kind 'benign' none.
+
 Mutants live in sa/mutants/<pid>.py as a list MUTANTS of dicts:
   {name, kind, file, old, new, rule (optional), count (optional, default 1)}  or, for several edits in one file,
   {name, kind, file, edits: [(old, new[, count]), ...], rule}
@@ -21,6 +25,107 @@ from concurrent.futures import ProcessPoolExecutor
 from . import core
 
 
+class PatchError(Exception):
+    pass
+
+
+def apply_patch(root, text):
+    """{relative path: new source} for a unified diff (git format), applied to the files under root in memory.
+    Hunks are located by their old lines (exact match, nearest to the stated position)."""
+    out = {}
+    cur = None
+    hunks = []
+
+    def flush():
+        if cur is None:
+            return
+        path = os.path.join(root, cur)
+        with open(path, encoding="utf-8") as fh:
+            lines = fh.read().split("\n")
+        delta = 0
+        for start, old, new in hunks:
+            pos = None
+            guess = start - 1 + delta
+            for d in sorted(range(-400, 401), key=abs):
+                i = guess + d
+                if 0 <= i <= len(lines) - len(old) and lines[i : i + len(old)] == old:
+                    pos = i
+                    break
+            if pos is None:
+                raise PatchError("hunk at line %d of %s does not apply" % (start, cur))
+            lines[pos : pos + len(old)] = new
+            delta += len(new) - len(old)
+        out[cur] = "\n".join(lines)
+
+    old = new = None
+    start = 0
+    for ln in text.split("\n"):
+        if ln.startswith("diff --git "):
+            if old is not None:
+                hunks.append((start, old, new))
+                old = new = None
+            flush()
+            cur, hunks = None, []
+        elif ln.startswith("+++ "):
+            t = ln[4:].strip()
+            cur = t[2:] if t.startswith("b/") else t
+            if t == "/dev/null":
+                raise PatchError("file removal is not supported")
+        elif ln.startswith("--- "):
+            if ln[4:].strip() == "/dev/null":
+                raise PatchError("file creation is not supported")
+        elif ln.startswith("@@"):
+            if old is not None:
+                hunks.append((start, old, new))
+            start = int(ln.split()[1].split(",")[0][1:])
+            old, new = [], []
+        elif old is not None:
+            if ln.startswith("+"):
+                new.append(ln[1:])
+            elif ln.startswith("-"):
+                old.append(ln[1:])
+            elif ln.startswith(" "):
+                old.append(ln[1:])
+                new.append(ln[1:])
+            elif ln == "":
+                # blank context line whose leading space was stripped, or the end of the patch
+                old.append("")
+                new.append("")
+            elif ln.startswith("\\"):
+                pass
+    if old is not None:
+        while old and new and old[-1] == "" and new[-1] == "":
+            old.pop()
+            new.pop()
+        hunks.append((start, old, new))
+    flush()
+    if not out:
+        raise PatchError("no file in patch")
+    return out
+
+
+def seeded_mutants(pid):
+    base = os.path.join(os.path.dirname(os.path.dirname(os.path.abspath(__file__))), "seeded", pid)
+    out = []
+    if not os.path.isdir(base):
+        return out
+    import json
+
+    for name in sorted(os.listdir(base)):
+        pp = os.path.join(base, name, "patch.diff")
+        mp = os.path.join(base, name, "meta.json")
+        if not (os.path.exists(pp) and os.path.exists(mp)):
+            continue
+        try:
+            meta = json.load(open(mp))
+        except Exception:
+            continue
+        if not meta.get("confirmation", {}).get("confirmed"):
+            continue  # only changes whose demonstration was reproduced count
+        out.append({"name": "seeded/%s/%s" % (pid, name), "kind": "benign" if meta.get("kind") == "benign" else "break", "patch": pp})
+    return out
+
+
 def _run_prop(pid, repo):
     mod = importlib.import_module("sa.props.%s" % pid.lower())
     res = core.Result(pid)
@@ -31,24 +136,33 @@ def _run_prop(pid, repo):
 def _one(args):
     pid, root, m, base_keys = args
     try:
-        rel = m["file"]
-        path = os.path.join(root, rel)
-        with open(path, encoding="utf-8") as fh:
-            src = fh.read()
-        edits = m.get("edits") or [(m["old"], m["new"], m.get("count", 1))]
-        new_src = src
-        for e in edits:
-            old, new = e[0], e[1]
-            want = e[2] if len(e) > 2 else 1
-            cnt = new_src.count(old)
-            if cnt != want:
-                return (m["name"], "stale", "anchor text occurs %d times: %r" % (cnt, old[:60]))
-            new_src = new_src.replace(old, new)
-        try:
-            compile(new_src, rel, "exec")
-        except SyntaxError as e:
-            return (m["name"], "stale", "mutant does not compile: %s" % e)
-        repo = core.Repo(root, overrides={rel: new_src})
+        if "patch" in m:
+            try:
+                with open(m["patch"], encoding="utf-8") as fh:
+                    overrides = apply_patch(root, fh.read())
+            except PatchError as e:
+                return (m["name"], "stale", str(e))
+        else:
+            rel = m["file"]
+            path = os.path.join(root, rel)
+            with open(path, encoding="utf-8") as fh:
+                src = fh.read()
+            edits = m.get("edits") or [(m["old"], m["new"], m.get("count", 1))]
+            new_src = src
+            for e in edits:
+                old, new = e[0], e[1]
+                want = e[2] if len(e) > 2 else 1
+                cnt = new_src.count(old)
+                if cnt != want:
+                    return (m["name"], "stale", "anchor text occurs %d times: %r" % (cnt, old[:60]))
+                new_src = new_src.replace(old, new)
+            overrides = {rel: new_src}
+        for rel, new_src in overrides.items():
+            try:
+                compile(new_src, rel, "exec")
+            except SyntaxError as e:
+                return (m["name"], "stale", "mutant does not compile: %s" % e)
+        repo = core.Repo(root, overrides=overrides)
         try:
             res = _run_prop(pid, repo)
             try:
@@ -85,7 +199,8 @@ def run(pid, repo, base_res, jobs=None):
         mm = importlib.import_module("sa.mutants.%s" % pid.lower())
     except ModuleNotFoundError:
         return {"mutants": 0}, []
-    muts = mm.MUTANTS
+    n_seeded = len(seeded_mutants(pid))
+    muts = list(mm.MUTANTS) + seeded_mutants(pid)
     base_keys = {f.key for f in base_res.findings}
     args = [(pid, repo.root, m, base_keys) for m in muts]
     t0 = time.time()
@@ -96,7 +211,7 @@ def run(pid, repo, base_res, jobs=None):
     else:
         results = [_one(a) for a in args]
     failures = []
-    summary = {"mutants": len(muts), "caught": 0, "silent": 0, "stale": 0, "missed": 0, "false-alarm": 0, "error": 0, "details": []}
+    summary = {"mutants": len(muts), "seeded": n_seeded, "caught": 0, "silent": 0, "stale": 0, "missed": 0, "false-alarm": 0, "error": 0, "details": []}
     for name, status, info in results:
         summary[status] = summary.get(status, 0) + 1
         summary["details"].append({"mutant": name, "status": status, "info": info})
